@@ -330,10 +330,15 @@ def c12(run):
                         "128-bit types); usize/isize are taken as 64-bit"]
 
 
+# caller-side names that a macro-defined helper item could capture (items and generic parameters are not hygienic)
+HYGIENE_NAMES = ["CAP", "LEN", "N", "Ret", "T", "U", "Item", "ITEM", "Acc", "RET", "ARR", "ITER", "CMD", "Iter", "Out", "ARRAY", "LENGTH"]
+
+
 # ------------------------------------------------------------------------------------------- C20
 def _concat_cases(run, path, name):
     import progs
     ps = progs.ProgSet(run, name)
+    k_hyg = 0
     for line in open(path):
         r = json.loads(line)
         pieces, sep, mac = r["pieces"], r["sep"], r["mac"]
@@ -369,6 +374,14 @@ def _concat_cases(run, path, name):
         else:
             continue
         ps.add(body, exp, r)
+        if mac == "from_iter" and pieces:
+            # hygiene: caller-side constants named like plausible macro internals inside the iterator tokens
+            # (the macro defines helper items; their generic / const parameters must not capture these)
+            nm = HYGIENE_NAMES[k_hyg % len(HYGIENE_NAMES)]
+            k_hyg += 1
+            hbody = body.replace("copied());", "copied(), skip(%s - %s), take(%s));" % (nm, nm, nm), 1)
+            hbody = "const %s: usize = %d; %s" % (nm, len(pieces), hbody)
+            ps.add(hbody, exp, dict(r, hygiene=nm))
     return ps
 
 
@@ -551,6 +564,18 @@ def _iterdsl_programs(run, path, name, limit=None, seed=1, alt_sources=False):
             rec["got_konst"] = kk
             return kk == exp
         ps.add(body, "K:" + exp, rec, accept=accept)
+        # hygiene: take / skip arguments written with a caller-side constant named like a plausible macro internal
+        if alt_sources and any(a["k"] in ("take", "skip") for a in r["chain"]) and k_line % 3 == 0:
+            nm = HYGIENE_NAMES[(k_line // 3) % len(HYGIENE_NAMES)]
+            hbody, hexp, hmodel = gi.case(r, hyg=nm)
+            hrec = dict(rec, hygiene=nm)
+
+            def haccept(g, exp=hexp, hrec=hrec):
+                if not g.startswith("K:") or ";S:" not in g:
+                    return False
+                hrec["got_konst"] = g[2:].split(";S:", 1)[0]
+                return hrec["got_konst"] == exp
+            ps.add(hbody, "K:" + hexp, hrec, accept=haccept)
         # the same chain from the other source kinds (Sources of IterDsl.tla): chains of depth <= 1, every fifth deeper one
         if alt_sources and "srcs" in r and (len(r["chain"]) <= 1 or (k_line % 8 == 0 and len(r["chain"]) == 2)):
             for kind in ("array", "iter_copied", "range", "range_incl", "chars", "repeat_take", "user_into", "user_iter"):
